@@ -613,6 +613,11 @@ func (p *BinaryProtocol) ReadMapBegin() (kType, vType Type, size int, err error)
 		return
 	}
 	size = int(size32)
+	// NOTICE: every pair takes 2 bytes at least, a larger size can't be true
+	// (callers use it as capacity of allocation)
+	if size > (len(p.Buf)-p.Read)/2 {
+		return 0, 0, 0, errInvalidDataSize
+	}
 	return kType, vType, size, nil
 }
 
@@ -644,6 +649,11 @@ func (p *BinaryProtocol) ReadListBegin() (elemType Type, size int, err error) {
 		return
 	}
 	size = int(size32)
+	// NOTICE: every element takes 1 byte at least, a larger size can't be true
+	// (callers use it as capacity of allocation)
+	if size > len(p.Buf)-p.Read {
+		return 0, 0, errInvalidDataSize
+	}
 
 	return
 }
@@ -676,6 +686,10 @@ func (p *BinaryProtocol) ReadSetBegin() (elemType Type, size int, err error) {
 		return
 	}
 	size = int(size32)
+	// NOTICE: every element takes 1 byte at least, a larger size can't be true
+	if size > len(p.Buf)-p.Read {
+		return 0, 0, errInvalidDataSize
+	}
 	return elemType, size, nil
 }
 
